@@ -1,13 +1,7 @@
 (* Model of the backtracking matching VM: libvore/engine/searchengine.go (state, micro-operations)
    and the per-instruction functions of libvore/engine/search.go. *)
-From Model Require Export Atoms Process.
+From Model Require Export Atoms Process Value Rx.
 
-(* engine.Value: a captured string or a nested map (named loops) *)
-Inductive value :=
-| VStr (s : bytes)
-| VMap (m : list (bytes * value)).
-
-Definition env := list (bytes * value).
 
 Record loopst := {
   lid : nat;            (* loopId *)
@@ -107,7 +101,6 @@ Definition enter_loop (id : nat) (nm : name) (c : core) : option (list loopst) :
   | [] => Some [fresh_loop id nm c]
   end.
 
-Definition within (mx : Z) (cnt : nat) : bool := (Z.eqb mx (-1) || Z.leb (Z.of_nat cnt) mx)%bool.
 
 Definition pred_env (c : core) : penv :=
   [(match_name, PVStr (matched (cur c))); (matchLength_name, PVNum (Z.of_nat (length (matched (cur c)))))].
